@@ -138,4 +138,76 @@ FracLe(a, b) == a[1] * b[2] <= b[1] * a[2]      \* positive denominators
 FracAdd(a, b) == <<a[1] * b[2] + b[1] * a[2], a[2] * b[2]>>
 FracEq(a, b) == a[1] * b[2] = b[1] * a[2]
 
+-----------------------------------------------------------------------------
+(* Pixel-centre mapping, windows, nearest indices (C01, C03, C10, C11).     *)
+(* One axis: source extent inSize, crop [a/Q, (a+wq)/Q), n destination      *)
+(* samples.  scale = wq/(Q n); destination sample i (0-based) has its       *)
+(* centre at  in0 + (i + 1/2) * scale.                                      *)
+
+\* centre of sample i as the fraction CenN / CenD
+CenD(Q, n) == 2 * Q * n
+CenN(a, wq, n, i) == 2 * n * a + (2 * i + 1) * wq
+
+\* nearest-neighbour source index: floor(centre); both neighbours at an exact tie
+NearestSet(inSize, a, wq, Q, n, i) ==
+    LET num == CenN(a, wq, n, i)
+        den == CenD(Q, n)
+        f == FloorDiv(num, den)
+        cand == IF IsMultiple(num, den) THEN {f - 1, f} ELSE {f}
+    IN  {x \in cand : x >= 0 /\ x < inSize}
+
+\* Convolution window of sample i for a kernel of support sn/sd.
+\* adaptive: the kernel is stretched by max(scale, 1); otherwise never stretched.
+\* All quantities over the common denominator D = 2 Q n sd.
+WinD(Q, n, sd) == 2 * Q * n * sd
+WinCen(a, wq, n, sd, i) == sd * CenN(a, wq, n, i)
+WinRad(wq, Q, n, sn, adaptive) == IF adaptive /\ wq > Q * n THEN 2 * sn * wq ELSE 2 * Q * n * sn
+WinLo(inSize, a, wq, Q, n, sn, sd, adaptive, i) ==
+    MaxI(0, FloorDiv(WinCen(a, wq, n, sd, i) - WinRad(wq, Q, n, sn, adaptive), WinD(Q, n, sd)))
+WinHi(inSize, a, wq, Q, n, sn, sd, adaptive, i) ==
+    MinI(inSize, CeilDiv(WinCen(a, wq, n, sd, i) + WinRad(wq, Q, n, sn, adaptive), WinD(Q, n, sd)))
+\* index of the source pixel under the centre (clamped into the source)
+CenPix(inSize, a, wq, Q, n, i) == MinI(inSize - 1, MaxI(0, FloorDiv(CenN(a, wq, n, i), CenD(Q, n))))
+
+\* A recorded bound [start, start + size) is acceptable for sample i when it lies inside the
+\* support window, is not empty and contains the pixel under the centre (leading/trailing taps
+\* of weight zero may have been trimmed).
+WindowOK(inSize, a, wq, Q, n, sn, sd, adaptive, i, start, size) ==
+    /\ size >= 1
+    /\ start >= WinLo(inSize, a, wq, Q, n, sn, sd, adaptive, i)
+    /\ start + size <= WinHi(inSize, a, wq, Q, n, sn, sd, adaptive, i)
+    /\ start + size <= inSize
+\* maximal number of taps per sample: 2 * ceil(radius) + 1
+WindowSize(wq, Q, n, sn, sd, adaptive) ==
+    2 * CeilDiv(WinRad(wq, Q, n, sn, adaptive), WinD(Q, n, sd)) + 1
+
+\* Does the axis need a resampling pass?  (destination extent differs from the crop extent, or the
+\* crop origin is not an integer)
+NeedPass(a, wq, Q, n) == wq # n * Q \/ ~IsMultiple(a, Q)
+\* integer-aligned crop of exactly the destination size: the copy fast path
+IsCopy(b, Q, dw, dh) ==
+    /\ IsMultiple(b[1], Q) /\ IsMultiple(b[2], Q)
+    /\ b[3] = dw * Q /\ b[4] = dh * Q
+
+\* Super-sampling plan: factor = min(w/dw, h/dh) / m ; two steps iff factor > 6/5.
+\* b = crop box in units 1/Q.  Returns "two", "one" or "either" (exactly 6/5).
+SsFactorCmp(b, Q, dw, dh, m) ==      \* compares factor with 6/5 : -1, 0, 1
+    LET wx == b[3] * dh              \* w/dw vs h/dh  <=>  w*dh vs h*dw
+        hx == b[4] * dw
+        \* the smaller scale as a fraction num/den
+        num == IF wx <= hx THEN b[3] ELSE b[4]
+        den == (IF wx <= hx THEN dw ELSE dh) * Q * m
+    IN  IF 5 * num > 6 * den THEN 1 ELSE IF 5 * num = 6 * den THEN 0 ELSE -1
+\* size of the intermediate image along one axis: round(extent / factor), ties either way
+\* extent/factor = extq * den / (Q * num)
+SsTmpSet(extq, b, Q, dw, dh, m) ==
+    LET wx == b[3] * dh
+        hx == b[4] * dw
+        num == IF wx <= hx THEN b[3] ELSE b[4]
+        den == (IF wx <= hx THEN dw ELSE dh) * Q * m
+        tn == extq * den
+        td == Q * num
+        f == FloorDiv(2 * tn + td, 2 * td)
+    IN  IF IsMultiple(2 * tn + td, 2 * td) THEN {f - 1, f} ELSE {f}
+
 =============================================================================
